@@ -23,12 +23,12 @@ func verifTestNames() []string {
 	return names
 }
 
-var verifKindsB = []int{0, 3, 4, 6, 10, 14, 16}
+var verifKindsB = []int{0, 3, 4, 6, 10, 14, 16, 22}
 var verifKindsC = []int{0, 3, 6, 16}
 
 // VerifC04_Tests: every registered router test called with one, two and
 // three arguments (operand of every kind; further arguments from a menu:
-// nil, arbitrary text, "12", arbitrary integer, datetime, array, error; at
+// nil, arbitrary text, "12", arbitrary integer, datetime, array, error, multi-byte text; at
 // most one symbolic argument) never panics and returns what
 // SwitchRouter.matchCase accepts: a result object or an error value —
 // matchCase panics on anything else.
